@@ -15,48 +15,114 @@ import QV.Proofs.WriterShape
 namespace QV.Writer
 open QV QV.Wire QV.Spec
 
-def RdAt (s : State) (m : CMode) : List CompType → List UInt8 → Nat → Nat → Prop
-  | [], rd, p, e => BytesAt s.octets p rd ∧ e = p + rd.length
-  | .compressibleName :: ts, rd, p, e =>
-    ∃ n rest k, WName.parse rd = some (n, rest) ∧ Item s p k ∧ NameIs s p m n ∧ RdAt s m ts rest (p + k) e
-  | .uncompressibleName :: ts, rd, p, e =>
+def RdAt (s : State) (m : CMode) : List CompType → List UInt8 → Nat → Nat → List Nat → Prop
+  | [], rd, p, e, ps => BytesAt s.octets p rd ∧ e = p + rd.length ∧ ps = []
+  | .compressibleName :: ts, rd, p, e, ps =>
+    ∃ n rest k, WName.parse rd = some (n, rest) ∧ Item s p k ∧ NameIs s p m n ∧
+      ∃ ps', ps = p :: ps' ∧ RdAt s m ts rest (p + k) e ps'
+  | .uncompressibleName :: ts, rd, p, e, ps =>
     ∃ n rest, WName.parse rd = some (n, rest) ∧ BytesAt s.octets p n.wire ∧
-      RdAt s m ts rest (p + n.wire.length) e
-  | .fixedLen k :: ts, rd, p, e =>
-    k ≤ rd.length ∧ BytesAt s.octets p (rd.take k) ∧ RdAt s m ts (rd.drop k) (p + k) e
+      ∃ ps', ps = p :: ps' ∧ RdAt s m ts rest (p + n.wire.length) e ps'
+  | .fixedLen k :: ts, rd, p, e, ps =>
+    k ≤ rd.length ∧ BytesAt s.octets p (rd.take k) ∧ RdAt s m ts (rd.drop k) (p + k) e ps
 
-theorem rdAt_le {s : State} {m : CMode} : ∀ {ts : List CompType} {rd : List UInt8} {p e : Nat},
-    RdAt s m ts rd p e → p ≤ e := by
+theorem rdAt_le {s : State} {m : CMode} : ∀ {ts : List CompType} {rd : List UInt8} {p e : Nat} {ps : List Nat},
+    RdAt s m ts rd p e ps → p ≤ e := by
   intro ts
   induction ts with
-  | nil => intro rd p e h; have := h.2; omega
+  | nil => intro rd p e ps h; have := h.2.1; omega
   | cons t ts ih =>
-    intro rd p e h
+    intro rd p e ps h
     cases t with
-    | compressibleName => obtain ⟨n, rest, k, _, _, _, h4⟩ := h; have := ih h4; omega
-    | uncompressibleName => obtain ⟨n, rest, _, _, h4⟩ := h; have := ih h4; omega
+    | compressibleName => obtain ⟨n, rest, k, _, _, _, _, _, h4⟩ := h; have := ih h4; omega
+    | uncompressibleName => obtain ⟨n, rest, _, _, _, _, h4⟩ := h; have := ih h4; omega
     | fixedLen k => obtain ⟨_, _, h4⟩ := h; have := ih h4; omega
+
+theorem wire_chunk {oct : Bytes} {a : Nat} {n : WName} (hn : n.WF) (h : BytesAt oct a n.wire) :
+    ChunkAt oct a n.wire.length :=
+  ⟨n.labels, 0, fun l hl => hn.1 l hl, by simpa [WName.wire] using h,
+    Or.inl ⟨rfl, by simp [WName.wire, encLen]⟩⟩
+
+theorem chunkAt_pos {oct : Bytes} {a k : Nat} (h : ChunkAt oct a k) : 1 ≤ k := by
+  obtain ⟨_, _, _, _, hk⟩ := h
+  rcases hk with ⟨_, e⟩ | ⟨_, e⟩ <;> omega
+
+/-- every name position of an RDATA lies inside it, and a name chunk lies there -/
+theorem rdAt_chunk {s : State} {m : CMode} : ∀ {ts : List CompType} {rd : List UInt8} {p e : Nat} {ps : List Nat},
+    RdAt s m ts rd p e ps → ∀ a ∈ ps, p ≤ a ∧ ∃ k, ChunkAt s.octets a k ∧ a + k ≤ e := by
+  intro ts
+  induction ts with
+  | nil => intro rd p e ps h a ha; rw [h.2.2] at ha; cases ha
+  | cons t ts ih =>
+    intro rd p e ps h a ha
+    cases t with
+    | compressibleName =>
+      obtain ⟨n, rest, k, _, hit, _, ps', hps, h4⟩ := h
+      subst hps
+      rcases List.mem_cons.mp ha with rfl | ha
+      · exact ⟨Nat.le_refl _, k, hit.2.1, rdAt_le h4⟩
+      · obtain ⟨h1, h2⟩ := ih h4 a ha
+        exact ⟨by omega, h2⟩
+    | uncompressibleName =>
+      obtain ⟨n, rest, hp, hb, ps', hps, h4⟩ := h
+      subst hps
+      rcases List.mem_cons.mp ha with rfl | ha
+      · exact ⟨Nat.le_refl _, _, wire_chunk (parse_wf hp) hb, rdAt_le h4⟩
+      · obtain ⟨h1, h2⟩ := ih h4 a ha
+        exact ⟨by omega, h2⟩
+    | fixedLen k =>
+      obtain ⟨_, _, h4⟩ := h
+      obtain ⟨h1, h2⟩ := ih h4 a ha
+      exact ⟨by omega, h2⟩
+
+/-- the name positions of an RDATA are listed in ascending order -/
+theorem rdAt_sorted {s : State} {m : CMode} : ∀ {ts : List CompType} {rd : List UInt8} {p e : Nat} {ps : List Nat},
+    RdAt s m ts rd p e ps → ps.Pairwise (· < ·) := by
+  intro ts
+  induction ts with
+  | nil => intro rd p e ps h; rw [h.2.2]; exact List.Pairwise.nil
+  | cons t ts ih =>
+    intro rd p e ps h
+    cases t with
+    | compressibleName =>
+      obtain ⟨n, rest, k, _, hit, _, ps', hps, h4⟩ := h
+      subst hps
+      refine List.Pairwise.cons (fun a ha => ?_) (ih h4)
+      have := (rdAt_chunk h4 a ha).1
+      have := chunkAt_pos hit.2.1
+      omega
+    | uncompressibleName =>
+      obtain ⟨n, rest, hp, hb, ps', hps, h4⟩ := h
+      subst hps
+      refine List.Pairwise.cons (fun a ha => ?_) (ih h4)
+      have := (rdAt_chunk h4 a ha).1
+      have := chunkAt_pos (wire_chunk (parse_wf hp) hb)
+      omega
+    | fixedLen k =>
+      obtain ⟨_, _, h4⟩ := h
+      exact ih h4
 
 /-- the parts move along any change of state that keeps items, names and octets from `lo` on -/
 theorem rdAt_map {s s' : State} {m : CMode} {e lo : Nat}
     (hi : ∀ a k, lo ≤ a → a + k ≤ e → Item s a k → Item s' a k)
     (hn : ∀ a n, lo ≤ a → NameIs s a m n → NameIs s' a m n)
     (hb : ∀ a d, lo ≤ a → a + d.length ≤ e → BytesAt s.octets a d → BytesAt s'.octets a d) :
-    ∀ {ts : List CompType} {rd : List UInt8} {p : Nat}, lo ≤ p → RdAt s m ts rd p e → RdAt s' m ts rd p e := by
+    ∀ {ts : List CompType} {rd : List UInt8} {p : Nat} {ps : List Nat}, lo ≤ p → RdAt s m ts rd p e ps →
+      RdAt s' m ts rd p e ps := by
   intro ts
   induction ts with
   | nil =>
-    intro rd p hp h
-    exact ⟨hb p rd hp (by have := h.2; omega) h.1, h.2⟩
+    intro rd p ps hp h
+    exact ⟨hb p rd hp (by have := h.2.1; omega) h.1, h.2⟩
   | cons t ts ih =>
-    intro rd p hp h
+    intro rd p ps hp h
     cases t with
     | compressibleName =>
-      obtain ⟨n, rest, k, h1, h2, h3, h4⟩ := h
-      exact ⟨n, rest, k, h1, hi p k hp (rdAt_le h4) h2, hn p n hp h3, ih (by omega) h4⟩
+      obtain ⟨n, rest, k, h1, h2, h3, ps', hps, h4⟩ := h
+      exact ⟨n, rest, k, h1, hi p k hp (rdAt_le h4) h2, hn p n hp h3, ps', hps, ih (by omega) h4⟩
     | uncompressibleName =>
-      obtain ⟨n, rest, h1, h2, h4⟩ := h
-      exact ⟨n, rest, h1, hb p _ hp (rdAt_le h4) h2, ih (by omega) h4⟩
+      obtain ⟨n, rest, h1, h2, ps', hps, h4⟩ := h
+      exact ⟨n, rest, h1, hb p _ hp (rdAt_le h4) h2, ps', hps, ih (by omega) h4⟩
     | fixedLen k =>
       obtain ⟨h1, h2, h4⟩ := h
       refine ⟨h1, hb p _ hp ?_ h2, ih (by omega) h4⟩
@@ -64,39 +130,39 @@ theorem rdAt_map {s s' : State} {m : CMode} {e lo : Nat}
       rw [List.length_take]; omega
 
 theorem rdAt_frame {s s' : State} {m : CMode} {ts : List CompType} {rd : List UInt8} {p e lo : Nat}
-    (h : RdAt s m ts rd p e) (hlo : lo ≤ p) (hend : e ≤ s.cursor) (hg12 : ∀ g ∈ s.gLabels, lo ≤ g)
+    {ps : List Nat} (h : RdAt s m ts rd p e ps) (hlo : lo ≤ p) (hend : e ≤ s.cursor) (hg12 : ∀ g ∈ s.gLabels, lo ≤ g)
     (hpre : ∀ i, lo ≤ i → i < s.cursor → s'.octets[i]? = s.octets[i]?) (hc : s.cursor ≤ s'.cursor)
-    (hg : ∀ g ∈ s.gLabels, g ∈ s'.gLabels) : RdAt s' m ts rd p e :=
+    (hg : ∀ g ∈ s.gLabels, g ∈ s'.gLabels) : RdAt s' m ts rd p e ps :=
   rdAt_map (lo := lo)
     (fun a k _ hk it => item_move (lo := lo) it hg12 (fun i h1 h2 => hpre i h1 (by omega)) (by omega)
       (fun g hgm _ => hg g hgm))
     (fun a n _ hnm => nameIs_frame hnm hg12 hpre hc hg)
     (fun a d ha hk hbb => bytesAt_frame hbb (fun i h1 h2 => hpre i (by omega) (by omega))) hlo h
 
-theorem rdAt_ext {s s' : State} {m : CMode} {ts : List CompType} {rd : List UInt8} {p e : Nat}
-    (h : RdAt s m ts rd p e) (hend : e ≤ s.cursor) (x : Ext s s') : RdAt s' m ts rd p e :=
+theorem rdAt_ext {s s' : State} {m : CMode} {ts : List CompType} {rd : List UInt8} {p e : Nat} {ps : List Nat}
+    (h : RdAt s m ts rd p e ps) (hend : e ≤ s.cursor) (x : Ext s s') : RdAt s' m ts rd p e ps :=
   rdAt_frame (lo := 0) h (Nat.zero_le _) hend (fun _ _ => Nat.zero_le _) (fun i _ hi => x.pre i hi) x.cur
     (fun g hg => x.glab g hg)
 
-theorem rdAt_fields {s s' : State} {m : CMode} {ts : List CompType} {rd : List UInt8} {p e : Nat}
-    (h : RdAt s m ts rd p e) (ho : s'.octets = s.octets) (hc : s'.cursor = s.cursor)
-    (hg : s'.gLabels = s.gLabels) : RdAt s' m ts rd p e :=
+theorem rdAt_fields {s s' : State} {m : CMode} {ts : List CompType} {rd : List UInt8} {p e : Nat} {ps : List Nat}
+    (h : RdAt s m ts rd p e ps) (ho : s'.octets = s.octets) (hc : s'.cursor = s.cursor)
+    (hg : s'.gLabels = s.gLabels) : RdAt s' m ts rd p e ps :=
   rdAt_map (lo := 0) (fun _ _ _ _ it => item_fields it ho hc hg) (fun _ _ _ hnm => nameIs_fields hnm ho hc hg)
     (fun _ _ _ _ hbb => by rw [ho]; exact hbb) (Nat.zero_le _) h
 
 /-- RDATA without compressible names is stored as the octets given -/
-theorem rdAt_literal {s : State} {m : CMode} : ∀ {ts : List CompType} {rd : List UInt8} {p e : Nat},
-    RdAt s m ts rd p e → CompType.compressibleName ∉ ts → BytesAt s.octets p rd ∧ e = p + rd.length := by
+theorem rdAt_literal {s : State} {m : CMode} : ∀ {ts : List CompType} {rd : List UInt8} {p e : Nat} {ps : List Nat},
+    RdAt s m ts rd p e ps → CompType.compressibleName ∉ ts → BytesAt s.octets p rd ∧ e = p + rd.length := by
   intro ts
   induction ts with
-  | nil => intro rd p e h _; exact h
+  | nil => intro rd p e ps h _; exact ⟨h.1, h.2.1⟩
   | cons t ts ih =>
-    intro rd p e h hn
+    intro rd p e ps h hn
     have hn' : CompType.compressibleName ∉ ts := fun hx => hn (List.mem_cons_of_mem _ hx)
     cases t with
     | compressibleName => exact absurd List.mem_cons_self hn
     | uncompressibleName =>
-      obtain ⟨n, rest, hp, hb, h4⟩ := h
+      obtain ⟨n, rest, hp, hb, _, _, h4⟩ := h
       obtain ⟨hb2, he⟩ := ih h4 hn'
       have hc := parse_content hp
       subst hc
@@ -139,10 +205,10 @@ theorem hop_patch {o : Bytes} {c a q g : Nat} (d : List UInt8) (hd : d.length = 
     exact .jump hq' (by rw [hout _ (Or.inr ha)]; exact h1) (by rw [hout _ (Or.inr (by omega))]; exact h2) hp hlt
       (by rw [hout _ hq]; exact h3) hnp
 
-theorem rdAt_patch {s sH : State} {m : CMode} {ts : List CompType} {rd : List UInt8} {p en : Nat}
+theorem rdAt_patch {s sH : State} {m : CMode} {ts : List CompType} {rd : List UInt8} {p en : Nat} {ps : List Nat}
     (hw : WInv s) (d : List UInt8) (hd : d.length = 2) (e : Ext { s with cursor := s.cursor + 2 } sH)
-    (h : RdAt sH m ts rd p en) (hp : s.cursor + 2 ≤ p) :
-    RdAt { sH with octets := writeAt sH.octets s.cursor d } m ts rd p en := by
+    (h : RdAt sH m ts rd p en ps) (hp : s.cursor + 2 ≤ p) :
+    RdAt { sH with octets := writeAt sH.octets s.cursor d } m ts rd p en ps := by
   have hlab : ∀ q, q ∈ sH.gLabels → q < s.cursor ∨ s.cursor + 2 ≤ q := by
     intro q hq
     rcases e.gnew q hq with h1 | h1
@@ -155,9 +221,10 @@ theorem rdAt_patch {s sH : State} {m : CMode} {ts : List CompType} {rd : List UI
     refine ⟨⟨q, hop_patch d hd hop ha (hlab q hq), hq⟩, ?_, hk⟩
     exact chunkAt_frame hck (fun i h1 _ => writeAt_get_ge _ _ _ _ (by omega))
   · intro a n ha hnm
-    obtain ⟨q, ls, hop, hst, hmm⟩ := hnm
+    obtain ⟨⟨q, ls, hop, hst, hmm⟩, hdis⟩ := hnm
     have hq : q ∈ sH.gLabels := (nameAt_start hst).1
-    exact ⟨q, ls, hop_patch d hd hop ha (hlab q hq), storedAt_patch hw d hd e q ls hst, hmm⟩
+    exact ⟨⟨q, ls, hop_patch d hd hop ha (hlab q hq), storedAt_patch hw d hd e q ls hst, hmm⟩,
+      fun hm' => rootEndB_frame (hdis hm') (fun i h1 _ => writeAt_get_ge _ _ _ _ (by omega)) (Nat.le_refl _)⟩
   · intro a dd ha _ hbb
     exact bytesAt_frame hbb (fun i h1 _ => writeAt_get_ge _ _ _ _ (by omega))
 
@@ -191,28 +258,35 @@ theorem nameBlock_inv (c : NameCtx) (wr : M (Option Prior)) (hfr : Frame wr) {s 
       · rw [hs1, f3, ← hs4]
       · rw [hs1, f1, ← hs4]
 
-/-- after one name component the name given sits at the old cursor as an item -/
-theorem nameComp_pos (c : NameCtx) (wr : M (Option Prior)) (n : WName)
+/-- after one name component the name given sits at the old cursor as an item; the label starts
+    recorded are label starts of that name -/
+theorem nameComp_pos (c : NameCtx) (wr : M (Option Prior)) (n : WName) (hwf : n.WF)
     (hspec : ∀ s, WInv s → NameSpec s n (wr s)) (hfr : Frame wr) {s s1 : State} {u : Unit} (hw : WInv s)
     (h : (do setCtx c
              let p ← wr
              setCtx .none
              M.modify fun s => { s with mostRecentNameInRdata := p }
              hvPush (p.map fun (q : Prior) => q.ptr)) s = (.ok u, s1)) :
-    Ext s s1 ∧ Item s1 s.cursor (s1.cursor - s.cursor) ∧ NameIs s1 s.cursor s.mode n := by
+    Ext s s1 ∧ Item s1 s.cursor (s1.cursor - s.cursor) ∧ NameIs s1 s.cursor s.mode n ∧
+      (∀ g, g ∈ s1.gLabels → g ∈ s.gLabels ∨ PhysLab s1.octets s.cursor g) := by
   obtain ⟨p, s2, hwr, ho, hc, hg, hext⟩ := nameBlock_inv c wr hfr h
   have hwA : WInv { s with gCtx := c } := winv_ext hw (ext_setCtx s c) rfl rfl rfl rfl
   have hs := hspec _ hwA
   have hf := hfr { s with gCtx := c }
   rw [hwr] at hs hf
-  obtain ⟨_, _, _, _, _, ⟨ls, hrd, hmt⟩, hck⟩ := hs.ok p rfl
+  obtain ⟨_, _, _, _, _, ⟨ls, hrd, hmt⟩, hck, hprov, hdis⟩ := hs.ok p rfl
   have hcur : s.cursor ≤ s2.cursor := hf.cur
-  simp only at hck hrd hmt
+  simp only at hck hrd hmt hprov hdis
   have it2 : Item s2 s.cursor (s2.cursor - s.cursor) := item_of_reads hrd hck (by omega)
   have nm2 : NameIs s2 s.cursor s.mode n := nameIs_of_reads hrd hmt
-  refine ⟨hext, ?_, nameIs_fields nm2 ho hc hg⟩
-  rw [hc]
-  exact item_fields it2 ho hc hg
+    (fun hm => rootEndB_of_wire hwf (hdis hm).1 (by have := (hdis hm).2; omega))
+  refine ⟨hext, ?_, nameIs_fields nm2 ho hc hg, ?_⟩
+  · rw [hc]
+    exact item_fields it2 ho hc hg
+  · intro g hgm
+    rw [hg] at hgm
+    rw [ho]
+    exact hprov g hgm
 
 /-- a name written without compression: its wire form, verbatim -/
 theorem uncompressed_bytes (n : WName) {s s2 : State} {p : Option Prior} (hw : WInv s)
@@ -246,7 +320,8 @@ theorem uncompComp_pos (c : NameCtx) (n : WName) {s s1 : State} {u : Unit} (hw :
 theorem writeComponents_pos {track : Prop} {s0 : State} :
     ∀ (ts : List CompType) (rd : List UInt8) (names loc : List WName) (o : Option Prior) (on : Option WName)
       (s s' : State) (u : Unit), RecSt track s0 s names loc o on → writeComponents ts rd s = (.ok u, s') →
-      Ext s s' ∧ RdAt s' s.mode ts rd s.cursor s'.cursor := by
+      Ext s s' ∧ ∃ ps, RdAt s' s.mode ts rd s.cursor s'.cursor ps ∧
+        (∀ g, g ∈ s'.gLabels → g ∈ s.gLabels ∨ ∃ a ∈ ps, PhysLab s'.octets a g) := by
   intro ts
   induction ts with
   | nil =>
@@ -259,7 +334,7 @@ theorem writeComponents_pos {track : Prop} {s0 : State} :
         | nil => rfl
         | cons _ _ => simp at hemp
       subst this
-      exact ⟨Ext.refl s, fun i hi => by simp at hi, rfl⟩
+      exact ⟨Ext.refl s, [], ⟨fun i hi => by simp at hi, rfl, rfl⟩, fun g hg => Or.inl hg⟩
     · obtain ⟨hs', hsz⟩ := tryPush_ok_inv h
       have hroom : rd.length ≤ s.available - s.cursor := by
         unfold tryPush at h
@@ -270,7 +345,7 @@ theorem writeComponents_pos {track : Prop} {s0 : State} :
           · cases h
       have hca := hrec.winv.cur_av
       subst hs'
-      exact ⟨ext_push s rd (by omega), bytesAt_writeAt _ _ _ hsz, rfl⟩
+      exact ⟨ext_push s rd (by omega), [], ⟨bytesAt_writeAt _ _ _ hsz, rfl, rfl⟩, fun g hg => Or.inl hg⟩
   | cons t ts ih =>
     intro rd names loc o on s s' u hrec h
     cases t with
@@ -287,12 +362,20 @@ theorem writeComponents_pos {track : Prop} {s0 : State} :
         have r1 := ((sp_nameComp (track := track) (s0 := s0) (names := names) (loc := loc) (o := o) (on := on)
           (writeUnhintedName n) n _ (fun s hw => writeUnhintedName_spec n s hw (parse_wf hp))
           (frame_writeUnhintedName n) (keepsHv_writeUnhintedName n)) s hrec).2 _ s1 h1
-        obtain ⟨e1, it1, nm1⟩ := nameComp_pos _ (writeUnhintedName n) n
+        obtain ⟨e1, it1, nm1, pv1⟩ := nameComp_pos _ (writeUnhintedName n) n (parse_wf hp)
           (fun s hw => writeUnhintedName_spec n s hw (parse_wf hp)) (frame_writeUnhintedName n) hrec.winv h1
-        obtain ⟨e2, hrest⟩ := ih rest _ _ _ _ s1 s' _ r1 h2
-        refine ⟨Ext.trans e1 e2, n, rest, s1.cursor - s.cursor, hp, item_ext it1 e2, nameIs_ext nm1 e2, ?_⟩
-        rw [show s.cursor + (s1.cursor - s.cursor) = s1.cursor by have := e1.cur; omega, ← e1.mode]
-        exact hrest
+        obtain ⟨e2, ps', hrest, pv2⟩ := ih rest _ _ _ _ s1 s' _ r1 h2
+        refine ⟨Ext.trans e1 e2, s.cursor :: ps', ⟨n, rest, s1.cursor - s.cursor, hp, item_ext it1 e2,
+          nameIs_ext nm1 e2, ps', rfl, ?_⟩, ?_⟩
+        · rw [show s.cursor + (s1.cursor - s.cursor) = s1.cursor by have := e1.cur; omega, ← e1.mode]
+          exact hrest
+        · intro g hg
+          rcases pv2 g hg with h3 | ⟨a, ha, h3⟩
+          · rcases pv1 g h3 with h4 | h4
+            · exact Or.inl h4
+            · exact Or.inr ⟨s.cursor, List.mem_cons_self, physLab_frame it1.2.1 h4 (fun i _ hi => e2.pre i (by
+                have := e1.cur; omega))⟩
+          · exact Or.inr ⟨a, List.mem_cons_of_mem _ ha, h3⟩
     | uncompressibleName =>
       unfold writeComponents at h
       cases hp : WName.parse rd with
@@ -307,10 +390,20 @@ theorem writeComponents_pos {track : Prop} {s0 : State} :
           (writeUncompressedName n) n _ (fun s hw => writeUncompressedName_spec n s hw (parse_wf hp))
           (frame_writeUncompressedName n) (keepsHv_writeUncompressedName n)) s hrec).2 _ s1 h1
         obtain ⟨e1, hc1, hb1⟩ := uncompComp_pos _ n hrec.winv h1
-        obtain ⟨e2, hrest⟩ := ih rest _ _ _ _ s1 s' _ r1 h2
-        refine ⟨Ext.trans e1 e2, n, rest, hp, ?_, ?_⟩
+        obtain ⟨_, it1, _, pv1⟩ := nameComp_pos _ (writeUncompressedName n) n (parse_wf hp)
+          (fun s hw => writeUncompressedName_spec n s hw (parse_wf hp)) (frame_writeUncompressedName n)
+          hrec.winv h1
+        obtain ⟨e2, ps', hrest, pv2⟩ := ih rest _ _ _ _ s1 s' _ r1 h2
+        refine ⟨Ext.trans e1 e2, s.cursor :: ps', ⟨n, rest, hp, ?_, ps', rfl, ?_⟩, ?_⟩
         · exact bytesAt_frame hb1 (fun i _ h2 => e2.pre i (by omega))
         · rw [← hc1, ← e1.mode]; exact hrest
+        · intro g hg
+          rcases pv2 g hg with h3 | ⟨a, ha, h3⟩
+          · rcases pv1 g h3 with h4 | h4
+            · exact Or.inl h4
+            · exact Or.inr ⟨s.cursor, List.mem_cons_self, physLab_frame it1.2.1 h4 (fun i _ hi => e2.pre i (by
+                have := e1.cur; omega))⟩
+          · exact Or.inr ⟨a, List.mem_cons_of_mem _ ha, h3⟩
     | fixedLen k =>
       unfold writeComponents at h
       split at h
@@ -332,11 +425,16 @@ theorem writeComponents_pos {track : Prop} {s0 : State} :
         have hb1 : BytesAt s1.octets s.cursor (rd.take k) := by rw [hs1]; exact bytesAt_writeAt _ _ _ hsz
         have hc1 : s1.cursor = s.cursor + k := by
           rw [hs1]; show s.cursor + (rd.take k).length = _; rw [List.length_take]; omega
-        obtain ⟨e2, hrest⟩ := ih (rd.drop k) _ _ _ _ s1 s' _ r1 h2
-        refine ⟨Ext.trans e1 e2, by omega, ?_, ?_⟩
+        have hg1 : s1.gLabels = s.gLabels := by rw [hs1]; rfl
+        obtain ⟨e2, ps', hrest, pv2⟩ := ih (rd.drop k) _ _ _ _ s1 s' _ r1 h2
+        refine ⟨Ext.trans e1 e2, ps', ⟨by omega, ?_, ?_⟩, ?_⟩
         · refine bytesAt_frame hb1 (fun i _ h2 => e2.pre i ?_)
           rw [List.length_take] at h2; omega
         · rw [← hc1, ← e1.mode]; exact hrest
+        · intro g hg
+          rcases pv2 g hg with h3 | h3
+          · exact Or.inl (hg1 ▸ h3)
+          · exact Or.inr h3
 
 /-! ### one record -/
 
@@ -354,7 +452,9 @@ theorem rdataBlock_pos {track : Prop} {s0 : State} {names : List WName} {o : Opt
                   let cur' ← M.gets (·.cursor)
                   if cur' < rdlengthStart + 2 then M.panic
                   else write rdlengthStart (u16be ((cur' - rdlengthStart - 2) % 65536))) s = (.ok u, s')) :
-    ∃ ts, componentTypes cls ty = some ts ∧ RdAt s' s.mode ts rd (s.cursor + 2) s'.cursor := by
+    ∃ ts ps, componentTypes cls ty = some ts ∧ RdAt s' s.mode ts rd (s.cursor + 2) s'.cursor ps ∧
+      (∀ g, g ∈ s'.gLabels → g ∈ s.gLabels ∨ ∃ a ∈ ps, PhysLab s'.octets a g) ∧
+      (∀ i, i < s.cursor → s'.octets[i]? = s.octets[i]?) := by
   simp only [M.bind_apply, M.gets_apply] at hrun
   have hav := h.winv.cur_av; have hsz := h.winv.av_size
   split at hrun
@@ -387,18 +487,38 @@ theorem rdataBlock_pos {track : Prop} {s0 : State} {names : List WName} {o : Opt
             | some ts =>
               rw [hct] at hw
               simp only [] at hw
-              obtain ⟨e2, hrd⟩ := writeComponents_pos ts rd names [] o on _ s2 u2 h1 hw
-              refine ⟨ts, rfl, ?_⟩
-              rw [hs']
-              exact rdAt_patch h.winv _ rfl e2 hrd (Nat.le_refl _)
+              obtain ⟨e2, ps, hrd, pv⟩ := writeComponents_pos ts rd names [] o on _ s2 u2 h1 hw
+              refine ⟨ts, ps, rfl, ?_, ?_, ?_⟩
+              · rw [hs']
+                exact rdAt_patch h.winv _ rfl e2 hrd (Nat.le_refl _)
+              · intro g hg
+                rw [hs'] at hg
+                rcases pv g hg with h3 | ⟨a, ha, h3⟩
+                · exact Or.inl h3
+                · refine Or.inr ⟨a, ha, ?_⟩
+                  obtain ⟨hpa, k, hck, _⟩ := rdAt_chunk hrd a ha
+                  rw [hs']
+                  exact physLab_frame hck h3 (fun i h4 _ => writeAt_get_ge _ _ _ _ (by
+                    show s.cursor + (u16be _).length ≤ i
+                    have : ∀ x, (u16be x).length = 2 := fun _ => rfl
+                    rw [this]
+                    have : s.cursor + 2 ≤ a := hpa
+                    omega))
+              · intro i hi
+                rw [hs']
+                show (writeAt s2.octets s.cursor _)[i]? = _
+                rw [writeAt_get_lt _ _ _ _ hi]
+                exact e2.pre i (by show i < s.cursor + 2; omega)
 
 /-- **where the RDATA of one record is**: after a successful `add_rr`, behind the owner (`k`
-    octets), the fixed fields and RDLENGTH, the RDATA given lies part by part -/
+    octets), the fixed fields and RDLENGTH, the RDATA given lies part by part; and the label starts
+    recorded meanwhile are label starts of the owner or of the names inside the RDATA -/
 theorem addRr_rd (hint : Hint) (owner : WName) (ty cls ttl : Nat) (rd : List UInt8) (s s' : State)
     (hw : WInv s) (hl : PtrLogOK s) (hwf : owner.WF) (hh : HintOK s hint owner)
     (h : addRr hint owner ty cls ttl rd s = (.ok (), s')) :
-    ∃ ts k, componentTypes cls ty = some ts ∧ RdAt s' s.mode ts rd (s.cursor + k + 10) s'.cursor ∧
-      ∃ p sB, writeHintedName hint owner { s with gCtx := .owner } = (.ok p, sB) ∧ sB.cursor = s.cursor + k := by
+    ∃ ts k ps, componentTypes cls ty = some ts ∧ RdAt s' s.mode ts rd (s.cursor + k + 10) s'.cursor ps ∧
+      (∃ p sB, writeHintedName hint owner { s with gCtx := .owner } = (.ok p, sB) ∧ sB.cursor = s.cursor + k) ∧
+      (∀ g, g ∈ s'.gLabels → g ∈ s.gLabels ∨ ∃ a ∈ s.cursor :: ps, PhysLab s'.octets a g) := by
   rw [addRr_eq] at h
   obtain ⟨_, s1, h1, h⟩ := M.bind_ok_inv h
   obtain ⟨_, s2, h2, h⟩ := M.bind_ok_inv h
@@ -411,30 +531,51 @@ theorem addRr_rd (hint : Hint) (owner : WName) (ty cls ttl : Nat) (rd : List UIn
   have r2 := ((sp_tryPush_rec (u16be ty)) s1 r1).2 _ s2 h2
   have r3 := ((sp_tryPush_rec (u16be cls)) s2 r2).2 _ s3 h3
   have r4 := ((sp_tryPush_rec (u32be ttl)) s3 r3).2 _ s4 h4
-  obtain ⟨ts, hct, hrd⟩ := rdataBlock_pos cls ty rd r4 h
+  obtain ⟨ts, ps, hct, hrd, pv, hpre4⟩ := rdataBlock_pos cls ty rd r4 h
   obtain ⟨e2, _⟩ := tryPush_ok_inv h2
   obtain ⟨e3, _⟩ := tryPush_ok_inv h3
   obtain ⟨e4, _⟩ := tryPush_ok_inv h4
   -- the owner block
   simp only [M.bind_apply, setCtx, M.modify_apply] at h1
+  have e0 := ext_setCtx s .owner
+  have hwA : WInv { s with gCtx := .owner } := winv_ext hw e0 rfl rfl rfl rfl
+  have hhA : HintOK { s with gCtx := .owner } hint owner := hintOK_ext hh e0 rfl rfl rfl rfl
+  have hs := writeHintedName_spec hint owner _ hwA hwf hhA
   have hf := frame_writeHintedName hint owner { s with gCtx := .owner }
   cases hwn : writeHintedName hint owner { s with gCtx := .owner } with
   | mk r sB =>
-    rw [hwn] at h1 hf
+    rw [hwn] at h1 hf hs
     cases r with
     | err e => cases h1
     | panic => cases h1
     | ok p =>
       simp only [Prod.mk.injEq, true_and] at h1
+      obtain ⟨_, _, _, _, _, _, hck, hprovB, _⟩ := hs.ok p rfl
+      simp only at hck hprovB
       have hcurB : s.cursor ≤ sB.cursor := hf.cur
       have c1 : s1.cursor = sB.cursor := by rw [← h1]
+      have g1 : s1.gLabels = sB.gLabels := by rw [← h1]
+      have o1 : s1.octets = sB.octets := by rw [← h1]
       have hl2 : ∀ x, (u16be x).length = 2 := fun _ => rfl
       have hl4 : ∀ x, (u32be x).length = 4 := fun _ => rfl
       have c2 : s2.cursor = sB.cursor + 2 := by rw [e2]; simp [pushed, hl2, c1]
       have c3 : s3.cursor = sB.cursor + 4 := by rw [e3]; simp [pushed, hl2, c2]
       have c4 : s4.cursor = sB.cursor + 8 := by rw [e4]; simp [pushed, hl4, c3]
-      refine ⟨ts, sB.cursor - s.cursor, hct, ?_, p, sB, rfl, by omega⟩
-      rw [show s.cursor + (sB.cursor - s.cursor) + 10 = s4.cursor + 2 by omega, ← r4.ext.mode]
-      exact hrd
+      have g4 : s4.gLabels = sB.gLabels := by rw [e4, e3, e2]; simp [pushed, g1]
+      have pre4 : ∀ i, i < sB.cursor → s4.octets[i]? = sB.octets[i]? := by
+        intro i hi
+        rw [e4, pushed_get_lt _ _ _ (by omega), e3, pushed_get_lt _ _ _ (by omega), e2,
+          pushed_get_lt _ _ _ (by omega), o1]
+      refine ⟨ts, sB.cursor - s.cursor, ps, hct, ?_, ⟨p, sB, rfl, by omega⟩, ?_⟩
+      · rw [show s.cursor + (sB.cursor - s.cursor) + 10 = s4.cursor + 2 by omega, ← r4.ext.mode]
+        exact hrd
+      · intro g hg
+        rcases pv g hg with h5 | ⟨a, ha, h5⟩
+        · rw [g4] at h5
+          rcases hprovB g h5 with h6 | h6
+          · exact Or.inl h6
+          · refine Or.inr ⟨s.cursor, List.mem_cons_self, physLab_frame hck h6 (fun i _ hi => ?_)⟩
+            rw [hpre4 i (by omega), pre4 i (by omega)]
+        · exact Or.inr ⟨a, List.mem_cons_of_mem _ ha, h5⟩
 
 end QV.Writer
